@@ -75,6 +75,19 @@ class Check(PropertyCheck):
             t = "\n".join(rows)
         return t
 
+    @staticmethod
+    def lookalike(t, i):
+        """same cells, other characters: every drawing character replaced by a letter (even i), or one typo (odd i)"""
+        typo = {"(": "[", ")": "]", "_": "=", ".": ":", ",": ";", "'": "!", "`": "x", "/": "Z", "\\": "N", "-": "=", "|": "I"}
+        if i % 2 == 0:
+            return "".join(c if c in " \n" else "x" for c in t)
+        out = list(t)
+        idx = [j for j, c in enumerate(out) if c not in " \n"]
+        if idx:
+            j = idx[(i // 2) % len(idx)]
+            out[j] = typo.get(out[j], "x")
+        return "".join(out)
+
     def correspondence(self):
         dis = []
         cases = [(self.build(a, k, n, x), backend.Settings(b=False, s=False, d=False), "settings")
@@ -96,7 +109,16 @@ class Check(PropertyCheck):
         # every fourth drawing is put into a buffer that was rendered before and is filled cell by cell ("mutate"), every
         # fifth into a buffer rendered with other settings first ("reuse"): the circle has to come out all the same
         entry = lambda i, x: "settings" if x == 4 else ("mutate" if i % 4 == 1 else "reuse" if i % 5 == 2 else "settings")
-        res = common.run_impl("lib", ["%d %s b=0,s=0,d=0 %s" % (i, entry(i, cases[i][5]), hx(t)) for i, t in enumerate(texts)])
+        # before two drawings out of three the same process converts a look-alike standing at the same place with the same
+        # outline and the same number of cells (the drawing with a typo, or letters laid out on its outline): what a process
+        # converted before must not matter (a memo keyed by position and size would hand the look-alike's cells to the circle)
+        lines = []
+        for i, t in enumerate(texts):
+            if cases[i][5] != 4 and i % 3 != 2:
+                lines.append("w%d settings b=0,s=0,d=0 %s" % (i, hx(self.lookalike(t, i))))
+            lines.append("%d %s b=0,s=0,d=0 %s" % (i, entry(i, cases[i][5]), hx(t)))
+        self.count("lookalike_warmups", sum(1 for l in lines if l.startswith("w")))
+        res = common.run_impl("lib", lines)
         for i, (idx, art, edge, k, n, extra) in enumerate(cases):
             self.evaluations += 1
             t = texts[i]
